@@ -275,8 +275,17 @@ var c18Garbage = []string{
 // (truncation). Neither is relied upon: a garbage line may land inside a
 // multi-line quoted description and be accepted; a run that exits 0 is not
 // judged.
+var c18Keyword = regexp.MustCompile(`open|close|price|balance|include|@performance|@accrue|daily|weekly|monthly|quarterly|yearly|once`)
+
 func c18Break(r *rand.Rand, text string) (broken, how string, byConstruction bool) {
-	switch r.Intn(5) {
+	switch r.Intn(6) {
+	case 5:
+		// the text ends in the middle of a keyword
+		if ms := c18Keyword.FindAllStringIndex(text, -1); len(ms) > 0 {
+			m := ms[r.Intn(len(ms))]
+			return text[:m[0]+1+r.Intn(m[1]-m[0]-1)], "truncated-in-keyword", false
+		}
+		fallthrough
 	case 0:
 		n := 16 + r.Intn(200)
 		b := make([]byte, n)
